@@ -1,4 +1,4 @@
-#!/venv/bin/python
+#!/usr/bin/env python3
 """Regenerate /verif/MANIFEST.json from the table below (kept in one place so it stays valid)."""
 import json
 import os
